@@ -968,6 +968,9 @@ func sliceAssumptions(pc []string, goal string, keepAll bool, depth int) []strin
 			rel[sy] = true
 		}
 	}
+	if len(rel) == 0 {
+		return pc // a goal without program symbols (e.g. "unreachable") depends on everything
+	}
 	in := make([]bool, len(pc))
 	round := 0
 	for changed := true; changed; {
